@@ -257,6 +257,21 @@ def run(ctx):
            "computed-once tables are served again" if not bad else
            f"'{norm(bad[0].test, 70)}' is false for the second variable of the table and the chain ends in raise", fo.loc(bad[0]) if bad else fo.loc())
 
+    R5 = "DIVERGED-PPC"
+    ctx.rule(R5, "when a calculation inside the control / time-series loop fails, the stored ppc is discarded unconditionally in the "
+                 "handler (net._ppc = None before repair, re-run or re-raise): a later recycled step must not start from the ppc of a "
+                 "diverged calculation")
+    fe = ctx.repo.func("pandapower.control.run_control:_evaluate_net")
+    hs = [h for n in ast.walk(fe.node) if isinstance(n, ast.Try) for h in n.handlers if "errors" in ast.unparse(h.type or ast.Constant(0))]
+    ok = False
+    if hs:
+        first = hs[0].body[0] if hs[0].body else None
+        ok = isinstance(first, ast.Assign) and ast.unparse(first.targets[0]) in ("net._ppc", "net['_ppc']", 'net["_ppc"]') \
+            and isinstance(first.value, ast.Constant) and first.value.value is None
+    ctx.ob(R5, "pandapower.control.run_control::_evaluate_net::clear-on-failure", ok,
+           "net._ppc = None is the first, unconditional statement of the failure handler" if ok else
+           "the failure handler of _evaluate_net does not discard net._ppc on every path: with continue_on_divergence the following "
+           "recycled steps reuse the ppc of the diverged step", fe.loc(hs[0]) if hs else fe.loc())
     R4 = "REUSE-GUARD"
     ctx.rule(R4, "the stored Ybus is returned only under `isinstance(recycle, dict) and not recycle['trafo']`; the stored Sbus "
                  "only when recycle is a dict and neither 'bus_pq' nor 'gen' is raised")
@@ -281,6 +296,7 @@ def variants(repo):
     return [
         V("trafo3w rebuilt only without trafo", "pandapower/powerflow.py", in_function("_recycled_powerflow", replace_once('        if "trafo3w" in lookup:', '        elif "trafo3w" in lookup:')), "RECYCLE-RERUN"),
         V("batch read with active tap changer", rt, replace_once('variable not in BATCH_READ_VARIABLES[table] or recycle["trafo"] \\\n                or len(output) > 2:', 'variable not in BATCH_READ_VARIABLES[table] or len(output) > 2:'), "no-batch-with-trafo-flag"),
+        V("ppc kept when the divergence is tolerated", "pandapower/control/run_control.py", in_function("_evaluate_net", lambda s: s.replace("        net._ppc = None\n", "", 1).replace("        else:\n            raise err", "        else:\n            net._ppc = None\n            raise err", 1)), "DIVERGED-PPC"),
         V("line recyclable again", cc, in_function("set_recycle", lambda s: s.replace('"trafo", "trafo3w"]', '"trafo", "trafo3w", "line"]', 1).replace('["trafo", "trafo3w"]:', '["trafo", "trafo3w", "line"]:', 1)), "line.*->trafo"),
         V("gen q recyclable", cc, in_function("set_recycle", replace_once('self.variable in ["p_mw", "vm_pu", "scaling"]', 'self.variable in ["p_mw", "vm_pu", "scaling", "min_q_mvar_xx"]')), "gen.min_q_mvar_xx"),
         V("batch accepts any line variable", rt, replace_once("variable not in BATCH_READ_VARIABLES[table] or ", ""), "BATCH-KEYS"),
